@@ -47,7 +47,7 @@ RULE = (
     "exactly one job whose line is the original command. accept: a topic and mutations of it (level dropped/added, "
     "wrong prefix, proper prefix/suffix of the prefix, trailing slash, < 5 levels, empty): recv() queues a job <=> "
     "topic.rsplit('/', 5) has six parts and the first equals in_prefix; recv never raises. subs: histories of "
-    "presentations on a started gateway and states restored through start_persistence() then start(): every "
+    "presentations (delivered with QoS 0 / 1 / 2) on a started gateway and states restored through start_persistence() then start(): every "
     "presentation/internal topic, every set/req topic of every presented or restored child and every stream topic "
     "of their nodes must be MATCHED by some subscribed filter (own MQTT '+'/'#' matcher); raising publish / "
     "subscribe callbacks must not stop the pump. Non-trivial = prefix non-empty and sharing >= 1 level with the "
